@@ -91,6 +91,12 @@ def worker(args):
     signal.signal(signal.SIGALRM, _alarm)
     t_end = time.time() + 60 * minutes
     tasklists = {}
+    for m in mods:      # import everything now: later edits of the checks must not mix versions inside one worker
+        try:
+            mod = importlib.import_module("checks." + m)
+            tasklists[m] = [t for t in mod.tasks("thorough", 0) if t.get("params", {}).get("mode") is None]
+        except Exception:
+            tasklists[m] = []
     stats = {"runs": 0, "fail": 0, "err": 0, "timeout": 0}
     out = open(os.path.join(ROOT, "scratch", f"discover.{wid}.jsonl"), "a")
     while time.time() < t_end:
